@@ -32,6 +32,7 @@ def _env(extra=None, twin=False):
     env["PYTHONHASHSEED"] = "0"
     env["PYTHONDONTWRITEBYTECODE"] = "1"
     env.pop("XH_TWIN", None)
+    env.pop("XH_NO_PATCH", None)
     if twin:
         env["XH_TWIN"] = "1"
     if extra:
